@@ -68,6 +68,17 @@ type timeoutContextKey struct{}
 // TODO - We should add a check for the Connect version header and/or query param to the reference server checks
 // to verify that conformant client implementations always include it (to maximize inter-op, just in case a server is
 // configured to require it).
+// shareTrailers makes sure that req has a trailer map before a shallow copy of
+// it is made (as http.Request.WithContext does). The HTTP server stores trailers
+// that were not announced in a "Trailer" header in a new map, which only the
+// request it created would see; with a map in place, it adds them to that map,
+// which the copies share.
+func shareTrailers(req *http.Request) {
+	if req.Trailer == nil {
+		req.Trailer = http.Header{}
+	}
+}
+
 func referenceServerChecks(handler http.Handler, errPrinter internal.Printer) http.HandlerFunc {
 	var callsMu sync.Mutex
 	calls := map[string]int{}
@@ -98,6 +109,7 @@ func referenceServerChecks(handler http.Handler, errPrinter internal.Printer) ht
 				// will NOT enforce it. That way, we can test that the client is actually enforcing it.
 				// We record the timeout in a context value, so that we can correctly include it in the
 				// RPC response's request info.
+				shareTrailers(req)
 				req = req.WithContext(contextWithTimeout(req.Context(), timeout))
 			}
 		}
